@@ -42,6 +42,10 @@ MANIFEST = dict(
 
 def report_direct(ctx, data):
     for d in data["direct_fails"]:
+        if d["signature"].startswith("C09:calculator-as-first-touch"):
+            ctx.report(d["signature"] + ":" + d.get("calc", "")[:40], d["what"], dict(calc=d.get("calc"), history_text=d["history_text"],
+                       how="PYTHONPATH=/repo /venv/bin/python tools/harness/c09calc.py --child first '<calc>' against --child after '<calc>'"))
+            continue
         if d["signature"].startswith("C09:atom-order"):
             ctx.report(d["signature"], d["what"], dict(history=d["history"], history_text=d["history_text"], pair=d.get("pair"),
                                                        how="./check C09 --replay <this file> reads the two values in two fresh interpreters"))
@@ -143,6 +147,13 @@ def _run(ctx):
         ctx.cov["atom_orders"] = od["stats"]
     except Exception as e:  # noqa
         ctx.note("atom-order stream did not run: %s" % str(e)[:300])
+    # breadth over entry points: every calculator as the very first touch of a fresh interpreter (tools/harness/c09calc.py)
+    try:
+        cd = vlib.run_harness("c09calc.py", [ctx.seed, ctx.tier], timeout=6000)
+        data["direct_fails"].extend(cd["direct_fails"])
+        ctx.cov["calculators_as_first_touch"] = cd["stats"]
+    except Exception as e:  # noqa
+        ctx.note("calculator stream did not run: %s" % str(e)[:300])
     cases, meta, st = data["cases"], data["meta"], data["stats"]
     ctx.cov["rule"] = ("one fresh interpreter per history; per property group every sequence of first touches (read via "
                        "element/isotope/ion, hasattr, calculator, import, init(elements), init(private)) of length <= %d, "
